@@ -150,30 +150,67 @@ def _implicit_default_instances(classes, idxs, g):
     must omit and a reader must supply.  Random generation practically never hits it."""
     import dataclasses
 
-    want = [i for i in idxs
-            if any("tag" in f.metadata and f.default is dataclasses.MISSING for f in dataclasses.fields(classes.cls(i)))]
+    want = [i for i in idxs if any("tag" in f.metadata for f in dataclasses.fields(classes.cls(i)))]
     if not want:
         return []
     replies = driver.run_batch([f"fields {i}" for i in want])
+    RANGES = {"int8": 7, "int16": 15, "int32": 31, "int64": 63}
+    M61 = 2**61 - 1
+
+    def twin(x, bits=63):
+        """a value that is NOT equal to `x` but has the same Python hash (hash(-1) == hash(-2); integers
+        hash modulo 2**61 - 1; tuples and dataclasses combine the hashes of their parts), or None"""
+        if x[0] == "I":
+            if x[1] == -1:
+                return ("I", -2)
+            if x[1] == -2:
+                return ("I", -1)
+            for y in (x[1] + M61, x[1] - M61):
+                if -2**bits <= y < 2**bits:
+                    return ("I", y)
+            return None
+        if x[0] in ("E", "A"):
+            for k, y in enumerate(x[1]):
+                t = twin(y, 31)     # members: stay inside every integer type that could be there
+                if t is not None:
+                    return (x[0], x[1][:k] + [t] + x[1][k + 1:])
+        return None
+
     out = []
     for i, r in zip(want, replies):
         if not r.startswith("ok"):
             continue
         c = classes.cls(i)
-        a = g.instance(c, budget=5, default_prob=0.5)
-        vals = list(a[1])
-        ok = True
-        for j, (f, d) in enumerate(zip(dataclasses.fields(c), r.split()[1:])):
+        fs = dataclasses.fields(c)
+        base = g.instance(c, budget=5, default_prob=0.5)
+        dflts = {}
+        for j, (f, d) in enumerate(zip(fs, r.split()[1:])):
             dv = d.split(":", 3)[3]
-            if "tag" in f.metadata and f.default is dataclasses.MISSING:
-                if dv.startswith("ERR") or dv == "-":
-                    ok = False
-                    break
-                vals[j] = values.parse_str(dv.replace(",", " "))
-        if ok:
-            a = ("E", vals)
-            out.append((i, a, values.build(a, c)))
-    return out
+            if "tag" in f.metadata and not dv.startswith("ERR") and dv != "-":
+                dflts[j] = values.parse_str(dv.replace(",", " "))
+        # (1) implicitly defaulted tagged fields at the model's default
+        if any("tag" in f.metadata and f.default is dataclasses.MISSING for f in fs) and \
+                all(j in dflts for j, f in enumerate(fs) if "tag" in f.metadata and f.default is dataclasses.MISSING):
+            vals = list(base[1])
+            for j, f in enumerate(fs):
+                if "tag" in f.metadata and f.default is dataclasses.MISSING:
+                    vals[j] = dflts[j]
+            out.append((i, ("E", vals), None))
+        # (2) every tagged field at a hash-twin of its default: unequal to the default, so it is written
+        vals, changed = list(base[1]), False
+        for j, d in dflts.items():
+            t = twin(d, RANGES.get(fs[j].metadata.get("kafka_type"), 31))
+            if t is not None:
+                vals[j], changed = t, True
+        if changed:
+            out.append((i, ("E", vals), None))
+    res = []
+    for i, a, _ in out:
+        try:
+            res.append((i, a, values.build(a, classes.cls(i))))
+        except Exception:  # noqa: BLE001 - a twin outside the field's type: skip
+            pass
+    return res
 
 
 def case_digest(i, a, extra="") -> str:
